@@ -72,6 +72,7 @@ def rand_tcp_exec(rng, nops):
         alive |= {2 * c - 1, 2 * c}
     sent = {e: 0 for e in range(1, 5)}
     got = {e: 0 for e in range(1, 5)}
+    small = rng.random() < 0.3            # small socket buffers (slow delivery): only together with moderate sizes
     peer = lambda e: ((e - 1) ^ 1) + 1
     for _ in range(nops):
         e = rng.randint(1, 2 * nconn)
@@ -79,7 +80,9 @@ def rand_tcp_exec(rng, nops):
         k = rng.random()
         if k < 0.33:
             n = rand_size(rng)
-            if nb[e] and rng.random() < 0.15:
+            if small:
+                n = min(n, 20000)
+            elif nb[e] and rng.random() < 0.15:
                 n = rng.choice([200000, 500000, 1000000])
             ops.append("send %d %d" % (e, n))
             sent[e] += n
@@ -99,6 +102,8 @@ def rand_tcp_exec(rng, nops):
                                                       rng.choice([1, 5, 20]), 1 if rng.random() < 0.25 else 0))
         elif k < 0.90:
             w, v = rng.choice(OPT_TCP)
+            if w in (4, 5) and v < 65536 and not small:
+                v = 65536
             ops.append("opt 0 %d %d %d" % (e, w, v))
             if w == 0:
                 nb[e] = True
@@ -160,7 +165,7 @@ def rand_udp_exec(rng, nops):
 
 DIRECTED = [
     # would-block on send: small buffers, nobody reads; then everything is delivered
-    ["conn 1 1 1 0", "opt 0 1 4 4096", "opt 0 2 5 4096"] + ["send 1 70000"] * 8 + ["drain 2", "send 1 70000", "close 1", "drain 2"],
+    ["conn 1 1 1 0", "opt 0 1 4 4096", "opt 0 2 5 4096"] + ["send 1 30000"] * 8 + ["drain 2", "send 1 30000", "close 1", "drain 2"],
     ["conn 1 1 0 1"] + ["send 1 1000000"] * 7 + ["drain 2", "send 1 5", "recv 2 100"],
     # end of stream: close / shutdown, blocking and non-blocking readers
     ["conn 1 0 0 0", "send 1 10", "close 1", "recv 2 4", "recv 2 100", "recv 2 100", "recv 2 100"],
